@@ -277,8 +277,8 @@ func (pg *poolGen) randomPool(o poolOpts) {
 				}
 			case 6: // coinbase-shaped pool transaction
 				ins = []inRef{{kind: 'c'}}
-			case 7: // non-final
-				// handled below through the lock fields
+			case 7: // the same outpoint twice in one transaction (fails sanity in the final self-check)
+				ins = append(ins, ins[0])
 			}
 		}
 		fee := r.Range(0, o.maxFee)
@@ -345,7 +345,7 @@ func (P) Generate(g *core.Gen) {
 }
 
 func genIndependent(g *core.Gen) {
-	for c := 0; c < g.N(30, 300); c++ {
+	for c := 0; c < g.N(40, 300); c++ {
 		pg := newPoolGen(g.R, c%2)
 		pg.randomPool(poolOpts{n: 1 + g.R.Intn(8), childProb: 0, maxFee: 50000, zeroFeePct: 10, anyKind: true})
 		s := pg.finish(true)
@@ -354,7 +354,7 @@ func genIndependent(g *core.Gen) {
 }
 
 func genPools(g *core.Gen) {
-	for c := 0; c < g.N(150, 1500); c++ {
+	for c := 0; c < g.N(300, 1500); c++ {
 		world := 0
 		if g.R.Chance(1, 4) {
 			world = 1
@@ -439,7 +439,7 @@ func predictedOrder(s *scenario) []int {
 // the running weight after each prefix of the fee order, with and without the
 // witness-commitment reservation in play.
 func genWeightLimits(g *core.Gen) {
-	for c := 0; c < g.N(60, 500); c++ {
+	for c := 0; c < g.N(100, 500); c++ {
 		pg := newPoolGen(g.R, 0)
 		wit := c%3 != 0
 		pg.randomPool(poolOpts{n: 3 + g.R.Intn(8), childProb: g.R.Intn(40), maxFee: 80000, zeroFeePct: 10, anyKind: wit})
@@ -519,7 +519,7 @@ func genSigopLimits(g *core.Gen) {
 // genPriority: a high-priority area of varying size; old, large inputs give
 // priorities above MinHighPriority, fresh small ones below.
 func genPriority(g *core.Gen) {
-	for c := 0; c < g.N(60, 500); c++ {
+	for c := 0; c < g.N(100, 500); c++ {
 		pg := newPoolGen(g.R, 0)
 		n := 3 + g.R.Intn(8)
 		for i := 0; i < n; i++ {
@@ -595,7 +595,7 @@ func genReorg(g *core.Gen) {
 // genRealPool: a real mempool.TxPool as the source (map order, so only pools
 // whose keys are pairwise distinct).
 func genRealPool(g *core.Gen) {
-	for c := 0; c < g.N(60, 500); c++ {
+	for c := 0; c < g.N(100, 500); c++ {
 		pg := newPoolGen(g.R, c%2)
 		pg.s.src = "pool"
 		if g.R.Chance(1, 3) {
@@ -662,7 +662,7 @@ func genDishonest(g *core.Gen) {
 // deterministic stub and nothing is released in pairs, so the pop order is
 // fixed by container/heap's sift rules alone.
 func genTies(g *core.Gen) {
-	for c := 0; c < g.N(40, 300); c++ {
+	for c := 0; c < g.N(60, 300); c++ {
 		pg := newPoolGen(g.R, 0)
 		n := 2 + g.R.Intn(8)
 		fp := g.R.Range(0, 3000)
@@ -756,7 +756,7 @@ func genSegwitInactive(g *core.Gen) {
 // above the running weight before / after each transaction in fee order, the
 // fee-rate threshold splits the pool at a random rank, the maximum is far away.
 func genFreeArea(g *core.Gen) {
-	for c := 0; c < g.N(50, 400); c++ {
+	for c := 0; c < g.N(80, 400); c++ {
 		pg := newPoolGen(g.R, 0)
 		pg.randomPool(poolOpts{n: 3 + g.R.Intn(7), childProb: g.R.Intn(30), maxFee: 80000, zeroFeePct: 20, anyKind: c%2 == 0})
 		s := pg.finish(true)
